@@ -13,7 +13,7 @@ CASES = {"quick": 8000, "thorough": 200000}
 MIN_CASES_PER_SHARD = 40
 CASE_TIMEOUT = 40
 RULE = ("one case = generated map x trace x first-order configuration without width (all families; noise, obs_noise_ne, length factor, cut-offs "
-        "incl. exact thresholds), run with non-emitting states off and on; 55 % are chain maps with every 2nd-4th node observed. Non-trivial = "
+        "incl. exact thresholds), run with non-emitting states off and on; 55 % are chain maps with every 2nd-4th node observed; 30 % use no length penalty with observations exactly on roads (exact ties between a non-emitting chain and the direct candidate); 20 % of the pairs run at DEBUG. Non-trivial = "
         "the two results differ or the on-run's best path contains a non-emitting state; distinct = hash of the case")
 ANCHORS = [("leuvenmapmatching/matcher/base.py", "BaseMatcher._match_non_emitting_states"),
            ("leuvenmapmatching/matcher/base.py", "BaseMatcher._match_non_emitting_states_inner"),
